@@ -90,7 +90,11 @@ func genC18(seed int64, tier string) []caseOut {
 				if r.Intn(3) == 0 {
 					k["publicKeyBase58"] = randID(r, 20)
 				} else {
-					k["publicKeyJwk"] = cleanJWK(ek)
+					jw := cleanJWK(ek)
+					if i%4 == 1 { // another spelling of the same x: the two spare bits of its last character set
+						jw["x"] = respell(jw["x"].(string), r)
+					}
+					k["publicKeyJwk"] = jw
 				}
 			case ty != "JsonWebKey2020" && r.Intn(3) == 0:
 				k["publicKeyBase58"] = randID(r, 30)
@@ -188,11 +192,21 @@ func genC18(seed int64, tier string) []caseOut {
 		} else {
 			infoCoq += "None)"
 		}
+		docBefore := deepSnapshot(rm.Doc)
 		res, err := tr.TransformDocument(rm, info)
 		// a result already handed out must not change when the same transformer is used again
 		stable := true
 		if err == nil {
 			before, _ := json.Marshal(res)
+			// the state is only read: transformed once more (and by a transformer with the other @base
+			// setting) it gives the same result again, and its document is as it was
+			if again, e2 := tr.TransformDocument(rm, info); e2 != nil || deepSnapshot(again) != string(before) || deepSnapshot(rm.Doc) != docBefore {
+				stable = false
+			}
+			didtransformer.New(didtransformer.WithBase(!base)).TransformDocument(rm, info)
+			if again, e2 := tr.TransformDocument(rm, info); e2 != nil || deepSnapshot(again) != string(before) || deepSnapshot(rm.Doc) != docBefore {
+				stable = false
+			}
 			for _, otherKeys := range []A{{M{"id": "zk1", "type": "EcdsaSecp256k1VerificationKey2019", "publicKeyBase58": "abc"}},
 				{M{"id": "zk2", "type": "Bls12381G2Key2020", "publicKeyBase58": "abc"}, M{"id": "zk3", "type": "X25519KeyAgreementKey2019", "publicKeyBase58": "abc"}}} {
 				rm2 := &protocol.ResolutionModel{Doc: toDoc(M{"publicKey": otherKeys})}
